@@ -64,10 +64,9 @@ def initLine (ws : List String) : St × String :=
   let bal := triples (field ws "bal")
   let nvar := natOr (field ws "nvar") 0
   -- RuntimeBalances::try_from(InitialBalances): non-retryable balances, the retryable amount added to the base asset entry
-  let free : Nat → Option Nat := fun a =>
-    match initial.lookup a with
-    | some v => some (if a = base then v + retry else v)
-    | none => if a = base then some retry else none
+  match runtimeFree base initial retry with
+  | none => ({}, "init-balance-overflow")
+  | some free =>
   let balF : Nat → Nat → Option Nat := fun c a => (bal.find? (fun t => t.1 == c && t.2.1 == a)).map (·.2.2)
   let led : Ledger := { base, cids, code, free, mem := free, bal := balF, varOut := List.replicate nvar (0, 0),
                         minted := fun _ => 0, burned := fun _ => 0, msgOut := 0, ctx := [] }
